@@ -139,7 +139,30 @@ pub fn generate(g: &mut Gen) {
                     match r.below(5) { 0 => t = t.to_uppercase(), 1 => { t.pop(); }, 2 => t.push('g'), 3 => t = format!("0x{t}"), _ => {} }
                     format!("parsehex {}", hex(t.as_bytes()))
                 }
-                15..=16 => format!("vwrite {}", gen_u64(r)),
+                15 => format!("vwrite {}", gen_u64(r)),
+                16 => {
+                    // bech32 text of a valid address (mainnet / testnet) or of a bare key hash (`addr_vkh`, decodes to 28 bytes that
+                    // are *not* an address), then maybe corrupted
+                    let line = gen_mk(r, false);
+                    let toks: Vec<String> = line.split_whitespace().skip(1).map(|s| s.to_string()).collect();
+                    let a = mk(&toks).map(|(a, _, _)| a);
+                    let mut t = match a.as_ref().and_then(|a| a.to_bech32().ok()) {
+                        Some(t) => t,
+                        None => ShelleyPaymentPart::Key(hash28(&gen_hash(r)).unwrap()).to_bech32(),
+                    };
+                    const CS: &[u8] = b"qpzry9x8gf2tvdw0s3jn54khce6mua7l";
+                    let n = t.len();
+                    let sep = t.rfind('1').unwrap_or(0);
+                    match r.below(8) {
+                        0 => { let i = r.below(n as u64) as usize; let c = CS[r.below(32) as usize] as char; t.replace_range(i..i + 1, &c.to_string()); }
+                        1 => { let i = r.below(n as u64) as usize; t.replace_range(i..i + 1, "b"); }
+                        2 => { let k = r.range(1, 8) as usize; t.truncate(n.saturating_sub(k)); }
+                        3 => t = t.replacen('1', "", 1),
+                        4 => t = format!("1{}", &t[sep + 1..]),
+                        _ => {}
+                    }
+                    format!("fromb32 {}", hex(t.as_bytes()))
+                }
                 17..=18 => {
                     let mut b = varuint_bytes(gen_u64(r));
                     match r.below(6) { 0 => { b.pop(); }, 1 => b.insert(0, 0x80 | r.next() as u8), 2 => { let n = r.range(9, 12) as usize; b = vec![0xff; n]; b.push(0x7f); }, 3 => b.extend(r.bytes(2)), 4 => { let k = r.below(12) as usize; b = r.bytes(k); }, _ => {} }
@@ -188,7 +211,8 @@ pub fn run_case(case: &Case, out: &mut Out) {
                     match guard(|| Address::from_str(&a.to_string())) { Some(Ok(b)) if b == a => {}, _ => out.viol(format!("roundtrip-str {tag}"), a.to_string()) }
                 } else { out.cov("outside-quantifier"); }
                 let f = |r: Option<Result<Address, pallas_addresses::Error>>| match r { Some(r) => show_res(bytes.first().copied(), r), None => "panic".into() };
-                out.ok(format!("{} hdr={} hrp={} rt={} rth={}", hex(&bytes), bytes[0], hrp.unwrap_or("none"), f(rt), f(rth)));
+                let b32 = guard(|| a.to_bech32().ok()).flatten().unwrap_or("none".into());
+                out.ok(format!("{} hdr={} hrp={} rt={} rth={} b32={}", hex(&bytes), bytes[0], hrp.unwrap_or("none"), f(rt), f(rth), b32));
             }
             "parse" => {
                 let Some(b) = unhex(&op[1]) else { out.reply("bad-op".into()); continue; };
@@ -201,6 +225,14 @@ pub fn run_case(case: &Case, out: &mut Out) {
                 let Some(t) = unhex(&op[1]).and_then(|b| String::from_utf8(b).ok()) else { out.reply("bad-op".into()); continue; };
                 let first = hex::decode(&t).ok().and_then(|b| b.first().copied());
                 match guard(|| Address::from_hex(&t)) { Some(r) => out.reply(show_res(first, r)), None => out.panic() }
+            }
+            "fromb32" => {
+                let Some(t) = unhex(&op[1]).and_then(|b| String::from_utf8(b).ok()) else { out.reply("bad-op".into()); continue; };
+                match guard(|| Address::from_bech32(&t)) {
+                    // header type 8 is delegated to the Byron decoder (C19): one opaque outcome
+                    Some(r) => { let s = match r { Err(pallas_addresses::Error::InvalidByronCbor(_)) => "ok byron".to_string(), r => show_res(None, r) }; out.cov(format!("fromb32:{}", s.split(' ').take(2).collect::<Vec<_>>().join("-"))); out.reply(s) }
+                    None => out.panic(),
+                }
             }
             "vwrite" => {
                 let Ok(n) = op[1].parse::<u64>() else { out.reply("bad-op".into()); continue; };
